@@ -107,6 +107,7 @@ func main() {
 	r.Floor("events_matched", int(r.Counter("events_matched")), 500*scale)
 	r.Floor("operations_expecting_events_on_2plus_connections", int(r.Counter("operations_expecting_events_on_2plus_connections")), 100*scale)
 	r.Floor("histories_completed", int(r.Counter("histories_completed")), nh*9/10)
+	r.Floor("subscription_entries_for_an_unknown_accessory_with_a_known_iid", int(r.Counter("subscription_entries_for_an_unknown_accessory_with_a_known_iid")), 20*scale)
 	r.Floor("histories_on_a_bridge_with_two_digit_ids", int(r.Counter("histories_on_a_bridge_with_two_digit_ids")), nh/4)
 	r.Floor("characteristics_with_ids_that_read_like_another_one", int(r.Counter("characteristics_with_ids_that_read_like_another_one")), nh/2)
 	r.Floor("distinct subscription states", r.DistinctN("subscription_state"), 200*scale)
